@@ -385,6 +385,28 @@ def check_pix_tolerance(res, name, scale=None, rel=None):
                 res.outcome(('pixtol', sc, eps, got))
                 res.axis('pix_magnitude', f'{sc:g}')
                 res.nontriv(('pixtol', name, f, sc, eps))
+        # integer-typed positions obey the same documented tolerance: at 10^7 a whole pixel is within it, 1000 pixels are not
+        if scale is None or scale == 1e7:
+            n = 1 if v.isscalar else len(v)
+            bx = 10 ** 7 + 13 * np.arange(n, dtype=np.int64)
+            by = -(10 ** 7) - 29 * np.arange(n, dtype=np.int64) ** 2
+            for delta, expect in ((1, True), (1000, False)):
+                if rel is not None and rel != delta:
+                    continue
+                case = {'op': 'pixtol', 'name': name, 'field': f, 'scale': 1e7, 'rel': delta, 'dtype': 'int'}
+                res.evaluations += 1
+                a, b = pool.make(name), pool.make(name)
+                px, py = bx.copy(), by.copy()
+                px[-1] += delta
+                if v.isscalar:
+                    setattr(a, f, PixCoord(int(bx[0]), int(by[0])))
+                    setattr(b, f, PixCoord(int(px[0]), int(py[0])))
+                else:
+                    setattr(a, f, PixCoord(bx, by))
+                    setattr(b, f, PixCoord(px, py))
+                _eq_calls(res, case, a, b, expect, f'{type(a).__name__}.{f}: integer-typed positions at 10^7 differing by {delta} pixel(s) '
+                          f'(documented tolerance: relative 1e-5, absolute 1e-8)')
+                res.nontriv(('pixtol_int', name, f, delta))
 
 
 # ------------------------------------------------------------ copy(**changes) --
